@@ -275,50 +275,48 @@ def check_algebra(rec, k, of, maxlen):
 
 
 def _one_case(rec, case, ops, fq):
-    if True:
-        if True:
-            # merge_origins
-            rec.count("transitions"); rec.count("traces"); rec.count("evaluations")
-            r = ref_merge(ops)
-            if r[0] in ("multi",):
-                rec.count("nontrivial")
-            try:
-                got = merge_origins(*ops)
-                msg = fits(got, r)
-            except Exception as e:  # noqa: BLE001
-                got, msg = None, f"raised {type(e).__name__}: {e}"
-            rec.outcome(f"merge:{r[0]}")
-            if msg:
-                rec.violation("C15|merge_origins", case, msg)
-            elif isinstance(got, MultiOrigin):
-                key = tuple(m.fqn for m in got.origins)
-                other = fq.setdefault(got.fqn, key)
-                if other != key:
-                    rec.violation("C15|fqn|not-injective", case, f"two different member sequences share fqn {got.fqn!r}")
-                if merge_origins(*ops).fqn != got.fqn:
-                    rec.violation("C15|fqn|unstable", case, "equal operand sequences gave different fqns")
-            # concat_origins and left-folded +
-            rec.count("transitions"); rec.count("traces"); rec.count("evaluations")
-            acc = ops[0]
-            rr = ("same", ops[0])
-            coalesced = False
-            for o in ops[1:]:
-                rr = ref_add(acc, o)
-                coalesced = coalesced or rr[0] == "code"
-                acc = realise(rr)
-            if coalesced:
-                rec.count("nontrivial")
-            for fname, fn in (("concat_origins", lambda: concat_origins(*ops)), ("+", lambda: _fold(ops))):
-                try:
-                    got = fn()
-                    msg = fits(got, rr) if rr[0] != "same" or len(ops) == 1 else (None if got == acc else f"expected {_n(acc)}, got {_n(got)}")
-                    if msg is None and not _same_shape(got, acc):
-                        msg = f"expected {_n(acc)}, got {_n(got)}"
-                except Exception as e:  # noqa: BLE001
-                    msg = f"raised {type(e).__name__}: {e}"
-                rec.outcome(f"{fname}:{rr[0]}")
-                if msg:
-                    rec.violation(f"C15|{fname}", case, msg)
+    # merge_origins
+    rec.count("transitions"); rec.count("traces"); rec.count("evaluations")
+    r = ref_merge(ops)
+    if r[0] in ("multi",):
+        rec.count("nontrivial")
+    try:
+        got = merge_origins(*ops)
+        msg = fits(got, r)
+    except Exception as e:  # noqa: BLE001
+        got, msg = None, f"raised {type(e).__name__}: {e}"
+    rec.outcome(f"merge:{r[0]}")
+    if msg:
+        rec.violation("C15|merge_origins", case, msg)
+    elif isinstance(got, MultiOrigin):
+        key = tuple(m.fqn for m in got.origins)
+        other = fq.setdefault(got.fqn, key)
+        if other != key:
+            rec.violation("C15|fqn|not-injective", case, f"two different member sequences share fqn {got.fqn!r}")
+        if merge_origins(*ops).fqn != got.fqn:
+            rec.violation("C15|fqn|unstable", case, "equal operand sequences gave different fqns")
+    # concat_origins and left-folded +
+    rec.count("transitions"); rec.count("traces"); rec.count("evaluations")
+    acc = ops[0]
+    rr = ("same", ops[0])
+    coalesced = False
+    for o in ops[1:]:
+        rr = ref_add(acc, o)
+        coalesced = coalesced or rr[0] == "code"
+        acc = realise(rr)
+    if coalesced:
+        rec.count("nontrivial")
+    for fname, fn in (("concat_origins", lambda: concat_origins(*ops)), ("+", lambda: _fold(ops))):
+        try:
+            got = fn()
+            msg = fits(got, rr) if rr[0] != "same" or len(ops) == 1 else (None if got == acc else f"expected {_n(acc)}, got {_n(got)}")
+            if msg is None and not _same_shape(got, acc):
+                msg = f"expected {_n(acc)}, got {_n(got)}"
+        except Exception as e:  # noqa: BLE001
+            msg = f"raised {type(e).__name__}: {e}"
+        rec.outcome(f"{fname}:{rr[0]}")
+        if msg:
+            rec.violation(f"C15|{fname}", case, msg)
 
 
 def _fold(ops):
